@@ -299,7 +299,7 @@ def main(run):
     run.cov["leaf_sweep"] = {"cases": len(sweep), "exhaustive": True,
                              "also_exhaustive": "all 256 byte values through the escape tables; '%' + all "
                              "65536 byte pairs through coap_split_path and coap_path_into_optlist; port texts "
-                             "0..66000 through coap_split_uri; all 65536 ports x 2 (quick) / 6 (thorough) schemes through "
+                             "0..66000 through coap_split_uri; all 65536 ports x 6 schemes through "
                              "coap_uri_into_optlist; 20 scheme names x proxy flag x 6 tails",
                              "exhaustive_over": "all strings over 'a./%%2eE?#&:[' of length <= %d as "
                              "path and query (buffer 64), <= %d through the optlist functions and as "
@@ -320,8 +320,7 @@ def main(run):
             base_lines.append("upol 1 11 %s" % ("61" * k))
     # Uri-Port decision: every port x every scheme coap_split_uri accepts (finite leaf domain)
     if caps == "11111":
-        for sch in ((b"coap", b"coaps+ws") if quick else
-                    (b"coap", b"coaps", b"coap+tcp", b"coaps+tcp", b"coap+ws", b"coaps+ws")):
+        for sch in (b"coap", b"coaps", b"coap+tcp", b"coaps+tcp", b"coap+ws", b"coaps+ws"):
             pre = sch + b"://h:"
             for port in range(65536):
                 base_lines.append("uinto 1 - " + G.tok(pre + str(port).encode()))
